@@ -483,6 +483,13 @@ def halves_disjoint(ctx, res, rule):
         if len(paired) == 2:
             pairs += 1
             h, t_ = A.show(paired[0].items[0]), A.show(paired[1].items[0])
+            if "merge_child_markers(" in h or "merge_child_markers(" in t_:
+                # the head absorbs from the front of the child list, the tail from its back - each into its own marker
+                if not (re.search(r"\.iter\(\), tree\.range\.0\)\)$", h) and re.search(r"\.iter\(\)\.rev\(\), tree\.range\.1\.some\)\)$", t_)):
+                    bad += 1
+                    res.add(Finding(rule, fn, "absorb-wiring", "head and tail absorb the child markers as `%s` / `%s`; the head must absorb from the front into the opening part, "
+                                    "the tail from the back into the closing part" % (h[-70:], t_[-70:]), loc=loc))
+                    break
             rel = None
             for k, v in o["decisions"].items():
                 if k == "ord(%s.end, %s.start)" % (h, t_):
